@@ -916,8 +916,11 @@ def fam_kqdir(rnd, i, symlinks=False):
                 st = fs("rmdir", p)
         elif r < 0.92:
             steps.append(call(w, "watchlist"))
-        elif r < 0.96:
+        elif r < 0.95:
             steps += [call(w, "remove", rnd.choice(watched), rnd.choice(["rel", "abs"])), {"s": "obs"}]
+        elif r < 0.97 and files:
+            # Remove of an entry of a watched directory that the user never added
+            steps += [call(w, "remove", rnd.choice(files), sp if sp in ("rel", "abs") else "rel"), {"s": "obs"}]
         else:
             steps.append(call(w, "add", rnd.choice(watched), rnd.choice(["rel", "abs", "dot"])))
         if st:
